@@ -172,7 +172,7 @@ class MustFlow(object):
 
     def __init__(self, prog, gen, subst=None, concrete=None,
                  once_callbacks=("dyn", "param", "direct", "drop"), pruned=None, kills=None,
-                 killers=None, role_events=None):
+                 killers=None, role_events=None, role_ok_events=None):
         self.prog = prog
         self.gen = gen
         self.subst = subst
@@ -181,6 +181,7 @@ class MustFlow(object):
         self.kills = kills
         self.killers = killers
         self.role_events = role_events or {}
+        self.role_ok_events = role_ok_events or {}
         self.once = set(once_callbacks)
         self.rflow = {}
         self.summ_ret = {}
@@ -334,7 +335,8 @@ class MustFlow(object):
             ok = frozenset()
         role = frozenset(self.role_events.get(body.path, ()))
         self.summ_ret[body.path] = frozenset(ret) | role
-        self.summ_ok[body.path] = frozenset(ok) | frozenset(ret) | role
+        self.summ_ok[body.path] = frozenset(ok) | frozenset(ret) | role | frozenset(
+            self.role_ok_events.get(body.path, ()))
         self._in_progress.discard(body.path)
 
     # ---- contexts ----
